@@ -249,6 +249,26 @@ pub fn read_scalar(s: &Scalar4) -> MScalar {
     MScalar::Float(c.re, c.im)
 }
 
+/// `read_scalar(s / 2^shift)`: keeps scalars of extreme magnitude inside f64's normal range
+pub fn read_scalar_shifted(s: &Scalar4, shift: i32) -> MScalar {
+    let cs = s.verif_coeffs();
+    let parts: Vec<(bool, bool, i32, u64)> = cs
+        .iter()
+        .map(|c| {
+            let p = c.verif_raw_parts();
+            (p.0, p.1, if p.3 == 0 { p.2 } else { p.2 - shift }, p.3)
+        })
+        .collect();
+    let approx = parts.iter().any(|p| p.1);
+    if !approx {
+        if let Some(z) = parts_to_zw(&parts) {
+            return MScalar::Exact(z);
+        }
+    }
+    let c = parts_to_c64(&parts);
+    MScalar::Float(c.re, c.im)
+}
+
 pub fn scalar_is_approx(s: &Scalar4) -> bool {
     s.verif_coeffs().iter().any(|c| c.verif_raw_parts().1)
 }
